@@ -214,7 +214,7 @@ token of the group only when the bound is the count returned by that read), and 
     by one final `Put` -/
 def bodyOk : List String → Bool
   | [] => true
-  | t :: ts => if t == "Put" then ts.isEmpty else t != "Get" && t != "slice[:n]" && bodyOk ts
+  | t :: ts => if t == "Put" then ts.isEmpty else t != "Get" && t != "slice[:n]" && t != "slice[:e]" && bodyOk ts
 
 def disciplinedCalls : List String → Bool
   | "Get" :: "Reset" :: rest => bodyOk rest
